@@ -368,10 +368,24 @@ def run_stage(st, prop, tier, seed, out, replay=None):
             os.remove(pth)
     else:
         bads = merge_validation(st, out, validate_trace(st, prop, trace_path, f"{prop}.tr"))
+    # behaviours: events carrying "first" flags belong to a group that must be replayed as a whole
+    ids = sorted(evs)
+    group_of = {}
+    if ids and "first" in evs[ids[0]]:
+        start = ids[0]
+        for i in ids:
+            if evs[i].get("first"):
+                start = i
+            group_of[i] = start
+    groups = {}
+    for i, g in group_of.items():
+        groups.setdefault(g, []).append(i)
     for b in bads:
         failed = [c for c in b["failed"] if c.startswith(prop + ".")]
         if failed:
-            out.bad.append((st.name, evs[b["id"]], failed, cases_path))
+            ev = evs[b["id"]]
+            grp = [evs[i] for i in groups.get(group_of.get(b["id"]), [])] if group_of else None
+            out.bad.append((st.name, ev, failed, grp))
     if replay is None:
         missing = [c for c in st.required if out.cov.get(c, 0) == 0]
         if missing:
@@ -450,12 +464,12 @@ def main(argv, registry):
     findings = load_findings()
     known = {}
     viol = {}
-    for stage, ev, failed, cases_path in out.bad:
+    for stage, ev, failed, grp in out.bad:
         f = match_finding(findings, prop, ev, failed)
         if f is not None:
             known.setdefault(f["key"], [f, 0])[1] += 1
         else:
-            viol.setdefault(stage, []).append((ev, failed))
+            viol.setdefault(stage, []).append((ev, failed, grp))
     for key, (f, n) in known.items():
         print(f"KNOWN-FINDING: property={prop} {f['what']} [{key}; {n} rejected events]")
     rc = 0
@@ -468,14 +482,17 @@ def main(argv, registry):
             path = os.path.join(WORK, "replay", f"{prop}.{stage}.{tier}.ndjson")
             with open(path, "w") as f:
                 seen = set()
-                for ev, failed in items:
-                    c = {k: v for k, v in ev.items() if k not in ("id",)}
-                    cid = ev.get("cid")
-                    if cid in seen:
-                        continue
-                    seen.add(cid)
-                    f.write(json.dumps(c, separators=(",", ":")) + "\n")
-            ev, failed = items[0]
+                for ev, failed, grp in items:
+                    for gev in (grp or [ev]):
+                        cid = gev.get("cid")
+                        if cid in seen:
+                            continue
+                        seen.add(cid)
+                        c = {k: v for k, v in gev.items() if k not in ("id",)}
+                        f.write(json.dumps(c, separators=(",", ":")) + "\n")
+                    if len(seen) > 20000:
+                        break
+            ev, failed, _ = items[0]
             print(f"VIOLATION property={prop} replay={path}")
             print(f"  stage={stage} rejected_events={len(items)} first: clauses={failed} "
                   f"event={json.dumps(ev)[:600]}")
